@@ -1415,6 +1415,17 @@ func (tt *TermTable) ICmp(op Op, a, b *Term) *Term {
 	if a == b {
 		return tt.Bool(op == OILe)
 	}
+	if a.op == OBV2Nat && b.op == OBV2Nat {
+		wa, wb := a.args[0].sort.W, b.args[0].sort.W
+		w := wa
+		if wb > w {
+			w = wb
+		}
+		if op == OILe {
+			return tt.Cmp(OUle, tt.ZExt(a.args[0], w), tt.ZExt(b.args[0], w))
+		}
+		return tt.Cmp(OUlt, tt.ZExt(a.args[0], w), tt.ZExt(b.args[0], w))
+	}
 	// comparisons of bv2nat(x) with a constant stay in the bit-vector theory
 	if a.op == OBV2Nat && b.op == OConst {
 		x := a.args[0]
